@@ -337,6 +337,12 @@ func persistField(e *Ent, f Field, ctx *boltz.PersistContext) {
 		}
 		return
 	}
+	if f.Kind == KStrReq && len(f.Prefix) == 0 {
+		// the persist context's own setter: it asks the checker and the bucket's state itself
+		sv, _ := v.(string)
+		ctx.SetRequiredString(f.StoreKey(), sv)
+		return
+	}
 	if !ctx.ProceedWithSet(f.StoreKey()) {
 		return
 	}
